@@ -346,7 +346,13 @@ func (t *Thread) finish(r *run) {
 func enter(blocking bool) *Thread {
 	r := rr
 	if r == nil {
-		fatal("shim operation outside zzvsched.Run (uninstrumented caller?)")
+		if !blocking {
+			// package-level initialisers of the code under test run before any execution (e.g. a variable
+			// initialised from time.Now() or a seeded generator): clock reads, draws and releases are harmless
+			// there and answer like an aborted run (the base time, the first menu entry, nothing)
+			return nil
+		}
+		fatal("blocking shim operation outside zzvsched.Run (uninstrumented caller?)")
 	}
 	if r.aborting {
 		if blocking {
@@ -441,7 +447,7 @@ func (r *run) enabled(t *Thread) bool {
 		}
 		return t.rw.owner == 0 && t.rw.readers == 0
 	case opRLock:
-		return t.rw.owner == 0
+		return t.rw.owner == 0 && t.rw.wwait == 0
 	case opWGWait:
 		return t.wg.n == 0
 	case opOnce:
@@ -653,6 +659,7 @@ func (r *run) apply(t *Thread) {
 			r.touch(t, &t.mu.hb, 3)
 		} else {
 			t.rw.owner = int32(t.ID + 1)
+			t.rw.wwait--
 			r.touch(t, &t.rw.hb, 3)
 		}
 	case opRLock:
